@@ -135,7 +135,7 @@ def direct_bad(chk, prop, metas, kind):
 
 def run_writer_scripts(chk, prop, tier, scripts=None, tag="scripts"):
     if scripts is None:
-        cfg = "MC_vw_replay.cfg"
+        cfg = "MC_vw_replay.cfg" if tier == "quick" else "MC_vw_replay_thorough.cfg"
         r = vlib.tlc(SPECD, "VectoredWriteReplay", cfg, timeout=1800)
         if r.errors or not r.no_error:
             raise vlib.ToolError(f"VectoredWriteReplay/{cfg}: {r.errors[:2]}")
@@ -152,7 +152,7 @@ def run_writer_scripts(chk, prop, tier, scripts=None, tag="scripts"):
     if len(metas) != len(scripts):
         raise vlib.ToolError("vw scripts: result count mismatch")
     nbad = direct_bad(chk, prop, metas, "writer-script")
-    acc, nrej = validate_writer_traces(chk, prop, tp, mp, "writer-script")
+    acc, nrej = validate_writer_traces(chk, prop, tp, mp, "writer-script", nchunks=4 if tier == "quick" else 8)
     for m in metas:
         chk.evaluations += 1
         if not m["agrees"] and not m["bad"] and len(chk.drift) < 20:
@@ -197,7 +197,7 @@ def gen_records(rng, n):
 def run_records(chk, prop, tier, scen=None, tag="records"):
     rng = random.Random(chk.seed * 104729 + 16)
     if scen is None:
-        scen = gen_records(rng, 400 if tier == "quick" else 6000)
+        scen = gen_records(rng, 400 if tier == "quick" else 20000)
     sp, tp, mp = (os.path.join(chk.dir, f"{tag}-{x}.ndjson") for x in ("in", "trace", "meta"))
     vlib.write_ndjson(sp, scen)
     vlib.run_bin("vw", ["records", "--scenarios", sp, "--out", tp, "--meta", mp], timeout=3600)
@@ -385,7 +385,7 @@ def run(prop, tier):
                 "into a randomly answering writer + TLC result scripts on FlushImmediately/Tee + BackgroundQueue scenarios; "
                 "distinct_nontrivial = distinct (buffers, script) / (configuration, kind, result, #calls, #bytes) / (sink, script) / queue parameter tuples")
     chk.assumptions = [
-        "exhaustive writer scripts: <= 3 buffers of <= 3 bytes, <= 1 interruption per call sequence (model checking: <= 2); larger ones are seeded random on real records",
+        "exhaustive writer scripts: <= 3 buffers of <= 3 bytes, <= 1 interruption per call sequence in the quick tier, <= 2 in thorough and in model checking; larger ones are seeded random on real records",
         "the reference bytes of a record are those an all-accepting writer receives from a freshly built formatter",
         "multi-megabyte records are byte-compared by the harness but not validated by TLC (the model numbers every byte)",
         "a skipped stream flush after a failed append is not forbidden by the property statement: reported as MODEL-DRIFT",
@@ -393,11 +393,13 @@ def run(prop, tier):
     ]
     vlib.cargo_build(["vw", "bq"])
     import time
-    for step in (model_runs, lambda c, t: run_writer_scripts(c, prop, t), lambda c, t: run_records(c, prop, t),
-                 lambda c, t: run_sinks(c, prop, t), lambda c, t: run_queue(c, prop, t)):
+    steps = [("models", model_runs), ("writer scripts", lambda c, t: run_writer_scripts(c, prop, t)),
+             ("records", lambda c, t: run_records(c, prop, t)), ("sinks", lambda c, t: run_sinks(c, prop, t)),
+             ("queue", lambda c, t: run_queue(c, prop, t))]
+    for name, step in steps:
         t0 = time.time()
         step(chk, tier)
-        log(f"[C16] step done in {time.time() - t0:.1f}s")
+        log(f"[{prop}] {name}: {time.time() - t0:.1f}s")
     return chk.finish()
 
 
